@@ -743,7 +743,7 @@ def search(ck, seeds=None):
 
 COQ_EXTRA = '''From Model Require Import PyHash Graph Morgan MorganFast Stereo Writer ChiralMorgan.
 From Model Require Import StereoRegistry.
-From Proofs Require Import WriterInvProofs WriterStereoExt StereoProofs RegistryRemapExt StereoOrderExt EnvLaws CtMapOrderExt SameStereo.
+From Proofs Require Import WriterInvProofs WriterStereoExt StereoProofs RegistryRemapExt StereoOrderExt EnvLaws CtMapOrderExt SameStereo ChiralOrderExt.
 Import ListNotations.
 Open Scope Z_scope.
 Definition iadj_eqb (a b : iadj) : bool := list_eqb (pair_eqb Z.eqb (list_eqb (pair_eqb Z.eqb Z.eqb))) a b.
@@ -781,6 +781,31 @@ Definition cm_ok (rings : list Z) (g : mol) (tabs : cmtabs) (ord : cmorders) (ex
              | Ok (r, tr) => pyres_eqb labels_eqb (Ok r) exp && list_eqb labels_eqb tr trace
              | Err e => pyres_eqb labels_eqb (Err e) exp
              end
+  end.
+(* hypothesis and conclusion of C01_chiral_morgan_order_independent on real molecules: whenever the run of the model on the real
+   iteration orders is uniform (uniform_run_b), the real __differentiation never returned a group for the flip-half heuristic, and
+   the model on SHUFFLED iteration orders gives the same weights and the same trace *)
+Definition cmres_eqb (a b : pyres (labels * list labels)) : bool :=
+  match a, b with
+  | Ok (r, t), Ok (r', t') => labels_eqb r r' && list_eqb labels_eqb t t'
+  | Err _, Err _ => true
+  | _, _ => false
+  end.
+Definition cm_uniform (rings : list Z) (g : mol) (tabs : cmtabs) (ord : cmorders) : option (labels * bool) :=
+  match fast_atoms_order rings g with
+  | Err _ => None
+  | Ok ao => Some (ao, uniform_run_b hash63 g tabs (diff_fuel ord) ao (o_atoms ord) (o_ct ord) (o_al ord))
+  end.
+Definition cmo_ok (rings : list Z) (g : mol) (tabs : cmtabs) (ord ord2 : cmorders) (flip_free : bool) : bool :=
+  match cm_uniform rings g tabs ord with
+  | Some (ao, true) => flip_free && cmres_eqb (chiral_morgan hash63 g tabs ao ord2) (chiral_morgan hash63 g tabs ao ord)
+  | _ => true
+  end.
+(* how often the hypothesis holds: uniform_run_b == "the real run needed no flip-half group" (not a theorem: counted, never an alarm) *)
+Definition cmu_is (rings : list Z) (g : mol) (tabs : cmtabs) (ord : cmorders) (flip_free : bool) : bool :=
+  match cm_uniform rings g tabs ord with
+  | Some (_, u) => Bool.eqb u flip_free
+  | None => true
   end.
 (* hypothesis of C01_smiles_invariant_discrete_remap: the stereo registries of the remap()-ed molecule are the renamed registries,
    and the remap()-ed molecule is ren_mol (same insertion orders) *)
@@ -943,13 +968,24 @@ class ChiralSpy:
             self.trace.append(dict(atoms))
             return self.orig(atoms, bonds)
         st._morgan = spy
+        # the groups __differentiation hands to the flip-half heuristic, call by call
+        self.flips = []
+        self.orig_d = st.MoleculeStereo._MoleculeStereo__differentiation
+        orig_d = self.orig_d
+
+        def diff(mol, *a):
+            r = orig_d(mol, *a)
+            self.flips.append(bool(r[4] or r[5] or r[6]))
+            return r
+        st.MoleculeStereo._MoleculeStereo__differentiation = diff
         return self
 
     def __exit__(self, *a):
         self.st._morgan = self.orig
+        self.st.MoleculeStereo._MoleculeStereo__differentiation = self.orig_d
 
 
-def chiral_case(spy, m):
+def chiral_case(spy, m, rng=None):
     """one run of the real _chiral_morgan: (Coq case, weights).  The iteration orders of the three sets are obtained by building
     them with the same expressions as the code does (CPython's order for a given construction is deterministic)"""
     stereo_atoms = {n for n, a in m.atoms() if a.stereo is not None}
@@ -965,12 +1001,24 @@ def chiral_case(spy, m):
     ring = [n for n, a in m.atoms() if a.in_ring]
     m.__dict__.pop('_chiral_morgan', None)
     spy.trace = []
+    spy.flips = []
     try:
         w = m._chiral_morgan
         exp = f'(Ok {zmap(w)})'
     except KeyError:
         w, exp = None, '(Err KeyError)'
     trace = lst([zmap(t) for t in spy.trace])
+    # C01_chiral_morgan_order_independent: the same sets in a shuffled iteration order
+    spy.last_order_cases = None
+    if w is not None and rng is not None:
+        sh = [list(atoms_stereo), list(cis_trans_stereo), list(allenes_stereo)]
+        for x in sh:
+            rng.shuffle(x)
+        ord2 = f'(mkCmo {lst(sh[0], zraw)} {lst(sh[1], pair_term)} {lst(sh[2], zraw)})'
+        flip_free = not any(spy.flips)
+        head = f'{lst(ring, zraw)} {mol_term(m)} {cmtabs_term(m)} {ord_term}'
+        spy.last_order_cases = (f'cmo_ok {head} {ord2} {b(flip_free)}', f'cmu_is {head} {b(flip_free)}', flip_free,
+                                max(len(x) for x in sh) > 1, len(spy.trace))
     return f'cm_ok {lst(ring, zraw)} {mol_term(m)} {cmtabs_term(m)} {ord_term} {exp} {trace}', w
 
 
@@ -1146,6 +1194,7 @@ def correspondence(ck):
     rng = random.Random(f'{ck.seed}:c01-corr')
     quick = ck.tier == 'quick'
     cases, meta = [], []
+    ucases, umeta = [], []
     suspects = []
     n_writer = 0
     pool = SPECIAL + GAP_EXAMPLES + LONG + ALLENES[:4] + corpus.sample(corpus.lipo(), 100 if quick else 500, ck.seed, 'c01-corr')
@@ -1254,12 +1303,20 @@ def correspondence(ck):
             ck.case(('corr-remap', smi, tuple(v2._atoms)), nontrivial=True)
             ck.count('corr:remap-registries')
             for how, v in (('as-read', m), ('renumbered', v2)):
-                c, w = chiral_case(cspy, v)
+                c, w = chiral_case(cspy, v, rng)
                 if c is None:
                     ck.count('corr:chiral:skipped')
                     continue
                 cases.append(c)
                 meta.append(('chiral', how, smi, len(cspy.trace)))
+                if cspy.last_order_cases:
+                    co, cu, flip_free, several, ncalls = cspy.last_order_cases
+                    cases.append(co)
+                    meta.append(('chiral-order', how, smi, flip_free))
+                    ck.case(('corr-chiral-order', smi, how, tuple(v._atoms)), nontrivial=several)
+                    ck.count('corr:chiral-order:' + ('no-flip-groups' if flip_free else 'flip-half-used'))
+                    ucases.append(cu)
+                    umeta.append((smi, how, flip_free, ncalls))
                 ck.case(('corr-chiral', smi, how, tuple(v._atoms)), nontrivial=True)
                 ck.count(f'corr:chiral:morgan-calls={min(len(cspy.trace), 3)}')
                 if w is not None and w is not v.atoms_order and dict(w) != dict(v.atoms_order):
@@ -1276,6 +1333,21 @@ def correspondence(ck):
     ck.oblige('correspondence: hash(atom), int_adjacency, _morgan (labels of the last round, result, KeyError), atoms_order, _chiral_morgan '
               '(weights + every _morgan input), start atom and first child of the writer == Coq model (exact ints, CPython tuple hash model)', ok and not failing, 'correspondence', log or repr([meta[i] for i in failing[:5]]))
     ck.extra['correspondence_cases'] = len(cases)
+    # how often the hypothesis of C01_chiral_morgan_order_independent holds on real molecules (uniform run of the model == no
+    # flip-half group in the real run); a mismatch is a coverage statement, not a failure of the code
+    uok, ufail, ulog = coqcases.run_cases('c01u', 'PyHash', ucases, extra=COQ_EXTRA, shard=100)
+    if uok:
+        fs = set(ufail)
+        for i, (smi, how, flip_free, ncalls) in enumerate(umeta):
+            if i in fs:
+                ck.count('corr:chiral-order:hypothesis-differs-from-no-flip-groups')
+            elif flip_free:
+                ck.count('corr:chiral-order:uniform-run-established' + (':with-refinement-pass' if ncalls else ':no-refinement-needed'))
+            else:
+                ck.count('corr:chiral-order:not-uniform(flip-half)')
+        ck.extra['uniform_run_cases'] = len(ucases)
+    else:
+        ck.unchecked('uniform_run_b could not be evaluated on the real molecules', ulog[-500:])
     ck.sample({'model_call': cases[0][:600], 'meta': repr(meta[0])[:300]})
     ck.sample({'model_call': cases[-200][:600], 'meta': repr(meta[-200])[:300]})
     bad = [meta[i] for i in failing]
